@@ -68,6 +68,7 @@ type Frame struct {
 	paramTypes map[string]types.Type
 	Top        bool
 	LoopSeen   map[*ssa.BasicBlock]bool
+	Unroll     map[*ssa.BasicBlock]int // loop headers being explored exactly, with the visits so far
 	Entry      *State // snapshot at entry (for old())
 	Params     map[string]Val
 	IterOf     map[ssa.Value]*IterState
@@ -117,6 +118,7 @@ type State struct {
 	Clock        int    // allocation counter at the last mutation of this state's memory
 	PrivChans    []Term // channels made by this unit that nothing else can reach yet
 	PrivTaint    map[string][]string // local variable cell -> private channels stored in it
+	Weak         []string            // facts lost on this path only because a function of the module has no contract
 }
 
 // universal is an assumed forall kept for later instantiation at new terms.
@@ -159,6 +161,7 @@ func (s *State) Clone() *State {
 		Clock:        s.Clock,
 		PrivChans:    append([]Term(nil), s.PrivChans...),
 		PrivTaint:    cloneTaint(s.PrivTaint),
+		Weak:         s.Weak,
 	}
 	for k, v := range s.Mem {
 		n.Mem[k] = v
@@ -176,6 +179,15 @@ func (s *State) Clone() *State {
 		n.Fresh[k] = v
 	}
 	return n
+}
+
+func (s *State) weaken(why string) {
+	for _, w := range s.Weak {
+		if w == why {
+			return
+		}
+	}
+	s.Weak = append(append([]string(nil), s.Weak...), why)
 }
 
 func (s *State) Assume(t Term) {
@@ -202,6 +214,12 @@ func (f *Frame) cloneFor() *Frame {
 	n.LoopSeen = make(map[*ssa.BasicBlock]bool, len(f.LoopSeen))
 	for k, v := range f.LoopSeen {
 		n.LoopSeen[k] = v
+	}
+	if f.Unroll != nil {
+		n.Unroll = make(map[*ssa.BasicBlock]int, len(f.Unroll))
+		for k, v := range f.Unroll {
+			n.Unroll[k] = v
+		}
 	}
 	n.IterOf = make(map[ssa.Value]*IterState, len(f.IterOf))
 	for k, v := range f.IterOf {
